@@ -19,8 +19,8 @@ contract(Contract(
     ensures={
         # C15: the text API is, by definition, plaintext fill at `width` with the HTML/Markdown-aware
         # splitter, or Markdown fill with every option passed under its own name.
-        "plaintext": "implies(plaintext, result == call('fill_text', text, text_wrap=Wrap.WRAP, width=width,"
-                     " word_splitter=call('get_html_md_word_splitter')))",
+        "plaintext": Clause("implies(plaintext, result == call('fill_text', text, text_wrap=Wrap.WRAP, width=width,"
+                            " word_splitter=call('get_html_md_word_splitter')))", props=["C15", "C05"]),
         "markdown": "implies(not plaintext, result == call('fill_markdown', text, width=width, semantic=semantic,"
                     " cleanups=cleanups, smartquotes=smartquotes, ellipses=ellipses, list_spacing=list_spacing))",
     },
@@ -114,6 +114,12 @@ def file_ok_normal(ex):
     return AND(*conds)
 
 
+def no_unmodelled(ex):
+    """C14 frame: every file effect is one the contract models (read, format, atomic context, stdout): no
+    open(..., 'w'), no os/shutil mutation, no write that bypasses the atomic temp file"""
+    return not [e for e in ex.log if e[0] == "UNMODELLED"]
+
+
 def file_sink(ex):
     """C14 input_untouched / C15 sinks: inplace => atomic target is `path` with backup '.orig' iff not nobackup;
     not inplace => stdout when output is None/''/'-', else atomic target `output` (never `path`)."""
@@ -180,12 +186,15 @@ contract(Contract(
     },
     at_call={"reformat_text": FMT_ARGS},
     raises=("Exception",),
+    unknown_calls="effect",
     ensures={
+        "write_only_via_atomic": Clause(no_unmodelled, props=["C14"]),
         "one_read_format_output": Clause(file_ok_normal, props=["C14", "C15"]),
         "sink": Clause(file_sink, props=["C14", "C15"]),
         "stdin_inplace": Clause(lambda ex: z3.Not(AND(ex.envs[0]["inplace"], ex.eq(ex.envs[0]["path"], "-"))), props=["C14", "C15"]),
     },
     ensures_raise={
+        "write_only_via_atomic": Clause(no_unmodelled, props=["C14"]),
         "nothing_committed": Clause(file_raise_clean, props=["C14"]),
         "sink": Clause(file_sink, props=["C14"]),
         "value_error": Clause(stdin_inplace_rejected, props=["C14", "C15"]),
@@ -246,8 +255,11 @@ contract(Contract(
     loops={0: Loop(inv={}, body_ensures={"one_call": Clause(one_file_call_per_iteration, props=["C14", "C15"])},
                    decreases="len(files) - _i")},
     raises=("Exception",),
-    ensures={"calls": Clause(files_stdin_case, props=["C14", "C15"])},
-    ensures_raise={"usage_error_before_effects": Clause(files_value_error, props=["C14", "C15"])},
+    unknown_calls="effect",
+    ensures={"calls": Clause(files_stdin_case, props=["C14", "C15"]),
+             "no_other_effects": Clause(no_unmodelled, props=["C14"])},
+    ensures_raise={"usage_error_before_effects": Clause(files_value_error, props=["C14", "C15"]),
+                   "no_other_effects": Clause(no_unmodelled, props=["C14"])},
     canaries=[
         ("semantic=semantic,\n            cleanups=cleanups,\n            smartquotes=smartquotes,\n            ellipses=ellipses,\n            make_parents=make_parents,\n            list_spacing=list_spacing,\n        )\n        return",
          "semantic=cleanups,\n            cleanups=semantic,\n            smartquotes=smartquotes,\n            ellipses=ellipses,\n            make_parents=make_parents,\n            list_spacing=list_spacing,\n        )\n        return", ["C15"]),
